@@ -19,6 +19,7 @@ type xClient struct {
 	failAt int // Do fails on this call (0-based), -1 never
 	calls  []string
 	status int
+	body   string
 }
 
 func (c *xClient) Do(req *http.Request) (*http.Response, error) {
@@ -27,7 +28,7 @@ func (c *xClient) Do(req *http.Request) (*http.Response, error) {
 	if i == c.failAt {
 		return nil, errors.New("connection reset")
 	}
-	return &http.Response{StatusCode: c.status, Header: http.Header{"X-Tok": []string{"v"}}, Body: io.NopCloser(strings.NewReader("body"))}, nil
+	return &http.Response{StatusCode: c.status, Header: http.Header{"X-Tok": []string{"v"}}, Body: io.NopCloser(strings.NewReader(c.body))}, nil
 }
 func (c *xClient) CloseIdleConnections() {}
 
@@ -35,7 +36,7 @@ type xAggr struct {
 	samples []*netsample.Sample
 }
 
-func (a *xAggr) Report(s *netsample.Sample)                             { a.samples = append(a.samples, s) }
+func (a *xAggr) Report(s *netsample.Sample)                           { a.samples = append(a.samples, s) }
 func (a *xAggr) Run(ctx context.Context, _ core.AggregatorDeps) error { return nil }
 
 type xTemplater struct {
@@ -84,6 +85,12 @@ type xPost struct {
 }
 
 func (p *xPost) Process(resp *http.Response, body io.Reader) (map[string]any, error) {
+	if body != nil {
+		// like the body-reading postprocessors (assert/response, var/jsonpath, var/xpath)
+		if _, err := io.ReadAll(body); err != nil {
+			return nil, err
+		}
+	}
 	if p.fail {
 		return nil, errors.New("assertion failed")
 	}
@@ -97,9 +104,10 @@ func (xStorage) Variables() map[string]any { return map[string]any{"k": "srcval"
 func HarnessC15ScenarioShot() {
 	nSteps := int(vConcretize(vNondetInt("steps", 1, 3)))
 	failStep := int(vConcretize(vNondetInt("failStep", -1, int64(nSteps)-1))) // -1: none fails
-	failKind := vConcretize(vNondetInt("failKind", 0, 3))                        // 0 transport 1 template 2 assertion 3 preprocessor
+	failKind := vConcretize(vNondetInt("failKind", 0, 3))                     // 0 transport 1 template 2 assertion 3 preprocessor
 	names := []string{"s0", "s1", "s2"}
 	cl := &xClient{failAt: -1, status: int(vNondetInt("status", 200, 599))}
+	cl.body = vNondetString("body", int(vConcretize(vNondetInt("bodylen", 0, 2)))) // the target may answer with an empty body
 	tp := &xTemplater{seen: map[string]map[string]any{}}
 	var reqs []Request
 	for i := 0; i < nSteps; i++ {
